@@ -38,6 +38,10 @@ pub open spec fn child_post(s: Store, key: Seq<u8>, parent: Uuid, r: Result<GetV
         Err(_) => true,
     }
 }
+/// every object but `salt` is as before
+pub open spec fn only_salt_differs(a: Store, b: Store) -> bool {
+    forall|n: Seq<char>| n != "salt"@ ==> (#[trigger] b.dom().contains(n)) == a.dom().contains(n) && (b.dom().contains(n) ==> b[n] == a[n])
+}
 /// (a marker naming the witnesses of the existential below)
 pub open spec fn wit(v: Uuid, bytes: Seq<u8>) -> bool { true }
 /// the states a failed or interrupted add_version can leave behind (C11): nothing, the not-yet-committed version object, or the accepted version
@@ -55,6 +59,9 @@ pub struct CloudServer<SVC: Service> {
     pub cryptor: Cryptor,
     pub cleanup_probability: u8,
 }
+//@end
+//@extract src/server/cloud/server.rs :: const DEFAULT_CLEANUP_PROBABILITY
+const DEFAULT_CLEANUP_PROBABILITY: u8 = 13;
 //@end
 //@extract src/server/cloud/server.rs :: const LATEST
 const LATEST: &'static str = "latest";
@@ -108,6 +115,51 @@ impl<SVC: Service> CloudServer<SVC> {
         ensures cleanup_rel(old(self).objs(), final(self).objs()), final(self).cryptor == old(self).cryptor,
     { unimplemented!() }
 
+//@props C13
+//@extract src/server/cloud/server.rs :: impl<SVC: Service> CloudServer<SVC> :: fn new | R16
+    pub fn new(
+        mut service: SVC,
+        encryption_secret: Vec<u8>,
+    ) -> (r: Result<Self>)
+        ensures
+            //@ob C13 CloudServer::new.the-key-is-the-protocol-key-of-the-secret-with-the-salt-stored-in-the-bucket-(created-once,-at-random)
+            r matches Ok(s) ==> s.wf() && s.objs().dom().contains("salt"@) && s.key() == protocol_key(s.objs()["salt"@], encryption_secret@)
+                && (service.objs().dom().contains("salt"@) ==> s.objs() == service.objs()),
+{
+        let salt = Self::get_salt(&mut service)?;
+        proof { axiom_vec_as_ref_bytes(&salt); }
+        let cryptor = Cryptor::new(salt, &into_conv(encryption_secret))?;
+        Ok(Self {
+            service,
+            cryptor,
+            cleanup_probability: DEFAULT_CLEANUP_PROBABILITY,
+        })
+    }
+//@end
+//@extract src/server/cloud/server.rs :: impl<SVC: Service> CloudServer<SVC> :: fn get_salt
+    #[verifier::exec_allows_no_decreases_clause]
+    fn get_salt(service: &mut SVC) -> (r: Result<Vec<u8>>)
+        ensures
+            //@ob C13 get_salt.an-existing-salt-is-used-as-it-is;-otherwise-a-random-one-is-stored-with-compare-and-swap-and-read-back
+            r matches Ok(salt) ==> final(service).objs().dom().contains("salt"@) && final(service).objs()["salt"@] == salt@,
+            old(service).objs().dom().contains("salt"@) ==> final(service).objs() == old(service).objs(),
+            only_salt_differs(old(service).objs(), final(service).objs()),
+{
+        const SALT_NAME: &'static str = "salt";
+        loop
+            invariant
+                old(service).objs().dom().contains("salt"@) ==> service.objs() == old(service).objs(),
+                only_salt_differs(old(service).objs(), service.objs()),
+        {
+            if let Some(salt) = service.get(SALT_NAME)? {
+                return Ok(salt);
+            }
+            service
+                .compare_and_swap(SALT_NAME, None, Cryptor::gen_salt()?)?;
+        }
+    }
+//@end
+//@props C08 C11 C13
 //@extract src/server/cloud/server.rs :: impl<SVC: Service> CloudServer<SVC> :: fn get_latest | R16
     fn get_latest(&mut self) -> (r: Result<Option<VersionId>>)
         ensures final(self).objs() == old(self).objs(), final(self).cryptor == old(self).cryptor, final(self).cleanup_probability == old(self).cleanup_probability,
